@@ -627,7 +627,7 @@ class ShapleyImportance(Importance):
             # Check if we have timed out.
             elapsed_time = time.time() - start_time
             if timeout > 0 and elapsed_time > timeout:
-                all_importances = all_importances[:, :i]
+                all_importances = all_importances[:, : i + 1]
                 break
 
         scores = np.average(all_importances, axis=1)
